@@ -1422,7 +1422,23 @@ def run(ctx):
 
     props = ["Props/C17.v"]
     targets = ["Props/C17.vo"]
-    for extra in ("C17_sde", "C17_sys"):
+    # translator: the order-1.5 update statements are re-read from the source
+    tx_ok = True
+    try:
+        import tx_c17_o15
+        tx_c17_o15.generate()
+    except Exception as e:
+        tx_ok = False
+        ctx.violation("tx:sode/_sode.pyx:Taylor15.step", "outside-supported-subset",
+                      "Taylor15.step / Taylor15_imp.step is no longer a sum of "
+                      "iadd_dense(out, system.<term>(i, j, k), <coefficient in dt, dw, dz>) "
+                      "statements in the i / j>i / k>j loop skeleton: %s; the theorem that the "
+                      "order-1.5 step is determined by its increments is not shown for this "
+                      "source" % (e,), {"error": repr(e)[:300], "kind": "translator"},
+                      found_input=False)
+    ctx.add_obligation("tx_c17_o15: Taylor15.step and Taylor15_imp.step within the translated "
+                       "subset", tx_ok)
+    for extra in ("C17_sde", "C17_sys") + (("C17_o15",) if tx_ok else ()):
         if os.path.exists(os.path.join(vlib.COQ, "Props", extra + ".v")):
             props.append("Props/%s.v" % extra)
             targets.append("Props/%s.vo" % extra)
